@@ -406,7 +406,7 @@ def validate_rw(chk: Check, per_class: int, props: set[str], ms_timestamps: bool
                 jobs: int = 16) -> None:
     classes = project.all_entity_classes()
     n = len(classes)
-    K = 16
+    K = 16 if per_class <= 6 else 64      # thorough: smaller shards, the workers run under an address-space limit
     slices = [(i * n // K, (i + 1) * n // K) for i in range(K)]
     in_args = [(os.path.join(chk.scratch, f"rwin{i}.json"), slices[i], per_class, chk.seed + 3,
                 ms_timestamps) for i in range(K)]
